@@ -36,6 +36,17 @@ type ledRec struct {
 	h, w     uint64
 	cred     uint64
 	counting bool // delivered with status same while (r,i) was the Voter's context
+	reached  bool // reached the counting stage (status same in the current context, or a stale precommit whose wrapper exists)
+}
+
+// stored returns the record whose vote the VoteSta keeps for this sender: the first one that reached the counting stage.
+func stored(recs []ledRec) *ledRec {
+	for k := range recs {
+		if recs[k].reached {
+			return &recs[k]
+		}
+	}
+	return nil
 }
 
 type member struct{ vt, addr, w uint64 }
@@ -128,7 +139,7 @@ func (l *ledger) ownVotes(w *world, evs []string) {
 			}
 			// the own vote goes through VoteSta.newVote only (never through addrVoteInfo): it is not part of the
 			// double-vote bookkeeping, so it is not a "counting-stage" record for double_voter_weightless
-			l.add(ledKey{r, i, ch, vt, 0}, ledRec{h: h, w: votes, cred: 1, counting: false})
+			l.add(ledKey{r, i, ch, vt, 0}, ledRec{h: h, w: votes, cred: 1, counting: false, reached: true})
 		}
 	}
 }
@@ -154,7 +165,11 @@ func (l *ledger) afterVote(w *world, a []uint64, st ucon.VerifC03Step, evs []str
 		cur := s.Round != nil && s.Round.Uint64() == a[1] && uint64(s.RoundIndex) == a[2]
 		k := ledKey{a[1], a[2], a[12] == 1, a[0], a[5]}
 		prev := l.recs[k]
-		l.add(k, ledRec{h: a[3], w: a[6], cred: a[14], counting: a[7] == 2 && cur})
+		reached := a[7] == 2 && cur
+		if (a[7] == 0 || a[7] == 1) && a[0] == 3 && findWrapper(w.d.C03Dump(), a[1], a[2]) != nil {
+			reached = true
+		}
+		l.add(k, ledRec{h: a[3], w: a[6], cred: a[14], counting: a[7] == 2 && cur, reached: reached})
 		if s.ShouldCert && (a[0] == 3 || a[0] == 5) && a[7] == 2 && cur {
 			for _, p := range prev {
 				if p.h != a[3] && p.counting {
@@ -253,13 +268,8 @@ func (l *ledger) check(w *world, evs []string, thresholds []uint64, msg []uint64
 				sum += wgt
 				id := addrID(a)
 				found, lenient := false, false
-				for _, rec := range l.recs[ledKey{r, i, true, 2, id}] {
-					if rec.h == h && rec.w == uint64(wgt) && rec.cred == 1 {
-						found = true
-					}
-					if rec.h == h && rec.w == uint64(wgt) && rec.cred == 2 {
-						lenient = true
-					}
+				if rec := stored(l.recs[ledKey{r, i, true, 2, id}]); rec != nil && rec.h == h && rec.w == uint64(wgt) {
+					found, lenient = rec.cred == 1, rec.cred == 2
 				}
 				if !found && lenient {
 					l.fail(fmt.Sprintf("precommit_justified: counted prevoter %d (weight %d) for %d in (%d,%d) has no verified credential: its vote was accepted only through verifySortition's old-round leniency", id, wgt, h, r, i), matcherLenient)
@@ -298,13 +308,8 @@ func (l *ledger) check(w *world, evs []string, thresholds []uint64, msg []uint64
 				cnt := func(m map[uint64]uint64, vt uint64) uint32 {
 					s := uint32(0)
 					for a, wgt := range m {
-						valid := false
-						for _, rec := range l.recs[ledKey{cr, ci, true, vt, a}] {
-							if rec.h == chh && rec.w == wgt && rec.cred == 1 {
-								valid = true
-							}
-						}
-						if valid {
+						rec := stored(l.recs[ledKey{cr, ci, true, vt, a}])
+						if rec != nil && rec.h == chh && rec.w == wgt && rec.cred == 1 {
 							s += uint32(wgt)
 						}
 					}
@@ -342,16 +347,8 @@ func (l *ledger) matchCommit(w *world, obs commitObs) string {
 		return ""
 	}
 	for _, m := range w.lastCommitMembers {
-		strict, lenient := false, false
-		for _, rec := range l.recs[ledKey{obs.r, obs.i, true, m.vt, m.addr}] {
-			if rec.h == obs.h && rec.w == m.w && rec.cred == 1 {
-				strict = true
-			}
-			if rec.h == obs.h && rec.w == m.w && rec.cred == 2 {
-				lenient = true
-			}
-		}
-		if lenient && !strict {
+		rec := stored(l.recs[ledKey{obs.r, obs.i, true, m.vt, m.addr}])
+		if rec != nil && rec.h == obs.h && rec.w == m.w && rec.cred == 2 {
 			return matcherLenient
 		}
 	}
